@@ -9,6 +9,7 @@ Line protocol of the C03 model.
   C03 answer <corpus> <query>…            spec: ids of live docs with `sem` (`;` between queries)
   C03 search <0|1> <top 0|1> <corpus> <query>…  implementation model: `searchIds`/`searchIdsTop leafTree scoring`
   C03 count <corpus> <query>…             implementation model: Σ `weightCount`
+  C03 ok <query>…                         side conditions `okQ` of C03_compile_sound_partial (F4, S6)
   C03 slop <on|off> <slop> <l1/l2/…>      the two phrase-slop algorithms on adjusted position lists
   C03 i64 <u64 bits> / C03 f64 <u64 bits> order-preserving encodings (on bit patterns)
   C03 lev <transp> <pre> <hex cand> <hex query>   edit distance
@@ -184,6 +185,7 @@ def handle : List String → String
     | some sc, some top, some c =>
       perQuery qs (fun q => showNatList (if top then searchIdsTop leafTree sc c q else searchIds leafTree sc c q))
     | _, _, _ => "bad-op"
+  | "ok" :: qs => perQuery qs (fun q => showBool (okQ q))
   | "count" :: c :: qs =>
     match parseCorpus c with
     | some c => perQuery qs (fun q => toString ((c.map (fun s => weightCount leafTree s q)).sum))
